@@ -669,6 +669,31 @@ def task_after_wide_case(job):
     return (job, sc, out)
 
 
+def unordered(spawns):
+    """the property speaks of the builds, outputs and tasks of the requested builds, not of their order: a run served from a wider
+    run's cache lists the builds in the wide run's (declaration) order, a cold `-b b0,b2,b1` in the order given. Targets of one ninja
+    invocation and the processes of the run are compared as multisets."""
+    out = []
+    for l in spawns:
+        if l.startswith("N:"):
+            w = l.split(" ")
+            # `N:-f <file> [flags...] targets...`: targets are the words that are paths of outputs (no leading `-`, not the value of -f/-j/-k)
+            head, targets, skip = [], [], False
+            for i, x in enumerate(w):
+                if skip:
+                    head.append(x); skip = False
+                elif x in ("N:-f", "-f", "-j", "-k", "-t"):
+                    head.append(x); skip = True
+                elif x.startswith("-") or i == 0:
+                    head.append(x)
+                else:
+                    targets.append(x)
+            out.append(" ".join(head + sorted(targets)))
+        else:
+            out.append(l)
+    return sorted(out)
+
+
 def task_worker(jobs):
     return [task_after_wide_case(j) for j in jobs]
 
@@ -689,7 +714,7 @@ def run(chk):
         chk.evaluations += 1
         w, c = out["warm"], out["cold"]
         chk.count("task-after-wide-run:" + ("hit" if w["hit"] else "miss"))
-        if w["hit"] and (w["rc"] != c["rc"] or w["spawns"] != c["spawns"]):
+        if w["hit"] and (w["rc"] != c["rc"] or unordered(w["spawns"]) != unordered(c["spawns"])):
             chk.fail_oracle("cache:task-run-differs-from-cold", f"{sc['invocations'][0]}: served from a wider run's cache: rc {w['rc']} spawns {w['spawns'][:4]}; "
                             f"with an empty build directory: rc {c['rc']} spawns {c['spawns'][:4]}", {"task_case": list(job), "scenario": sc})
         elif w["hit"]:
